@@ -42,6 +42,7 @@ _o['io_open'] = io.open
 _o['ismount'] = posixpath.ismount
 
 NOW = [None]  # virtual clock: a tuple (Y, M, D, h, m, s) or None
+TICK = [0, 0]  # [seconds per counted operation, operations counted so far]: with a step, the virtual clock moves with the run
 
 
 def install_clock():
@@ -60,6 +61,9 @@ def install_clock():
         def now(cls, tz=None):
             if NOW[0] is None:
                 return real.now(tz)
+            if TICK[0]:
+                import datetime as _d
+                return cls(*NOW[0]) + _d.timedelta(seconds=TICK[0] * TICK[1])
             return cls(*NOW[0])
 
         @classmethod
@@ -82,6 +86,8 @@ class Shim(object):
         self.mounts = set(cfg.get('mounts', [self.root]))
         self.uid = cfg.get('uid')
         self.pwall = cfg.get('pwall') or []
+        self.short_writes = bool(cfg.get('short_writes'))
+        TICK[0] = int(cfg.get('clock_step') or 0)     # seconds the virtual clock advances per counted operation
         self.seed = cfg.get('seed', 0)
         self.permute = cfg.get('permute', False)
         self.trace_on = cfg.get('trace', False)
@@ -179,7 +185,10 @@ class Shim(object):
     def disk_partitions(self, all=False):
         from collections import namedtuple
         P = namedtuple('sdiskpart', ['device', 'mountpoint', 'fstype', 'opts'])
-        return [P('/dev/verif%d' % i, m, 'ext4', 'rw')
+        # the kind of file system is nobody's business (the checks of $topdir/.Trash are the same on a USB stick)
+        import random as _r
+        kinds = ['ext4', 'ext4', 'vfat', 'exfat', 'ntfs', 'fuseblk', 'xfs', 'btrfs', 'nfs4', 'msdos']
+        return [P('/dev/verif%d' % i, m, _r.Random('fstype|%s|%d' % (self.seed, i)).choice(kinds), 'rw')
                 for i, m in enumerate(sorted(self.mounts))]
 
     # ---- event machinery ---------------------------------------------------------
@@ -229,6 +238,7 @@ class Shim(object):
             ev.update(extra)
         if counted:
             self.seq += 1
+            TICK[1] = self.seq
             ev['seq'] = self.seq
             if self.seq > self.budget:
                 ev['res'] = 'BUDGET'
@@ -524,6 +534,9 @@ class Shim(object):
             rel = s.fds.get(fd)
             if rel is None:
                 return _o['write'](fd, data)
+            if s.short_writes and len(data) > 1:
+                # a write may store only part of the data and say so (quota, file-size limit, a nearly full disk): legal
+                data = bytes(data)[:(len(data) + 1) // 2]
             return s._run('write', _o['write'], [posixpath.join(s.root, rel)], (fd, data), {},
                           {'n': len(data)})
         os.write = w_write
